@@ -227,10 +227,6 @@ def oracle(case, res, K):
                     F.append('update %d: colliding hash installed: ids %d and %d both hash to %d' % (k, inv[idx[t]], t, idx[t]))
                     break
                 inv[idx[t]] = t
-            if f['len'] != f['max'] + 1:
-                F.append('update %d: hash_length %d <> hash_max + 1 = %d' % (k, f['len'], f['max'] + 1))
-            if f['max'] < prev_max:
-                F.append('update %d: hash_max went down from %d to %d' % (k, prev_max, f['max']))
             v = o.get('vptrs')
             if v is None:
                 if rc == 0:
@@ -742,7 +738,7 @@ def main():
         if r['fails']:
             nviol += 1
             if nviol <= 3:
-                report_violation(ctx, R, K, r, case.get('name', '?'), time.time() + (120 if ctx.thorough else 40))
+                report_violation(ctx, R, K, r, case.get('name', '?'), time.time() + (60 if ctx.thorough else 20))
         elif r['corr']:
             ncorr += 1
             if ncorr <= 3:
